@@ -291,6 +291,13 @@ class Exec(ExprMixin):
 
     def st_If(self, s, st):
         c = self.truthy(self.ev(s.test, st), st)
+        import os
+        if os.environ.get('PYVC_BRANCH_CANARY') and not self.probing:
+            # developer diagnostic: which branches are unreachable under the contract + the engine's typing assumptions?
+            # (a branch that is dead although the code can take it points at a contradictory assumption: vacuous proofs)
+            for lab, cond in (('then', c), ('else', z3.Not(c))):
+                self.obligations.append(Obligation('%s/deadbranch@L%d.%s#%d' % (self.fn.key, s.lineno, lab, self._next_site()),
+                                                   list(st.pc) + [cond], z3.BoolVal(False), 'canary', self.fn.key))
         return self.branch(c, st, lambda x: self.exec_block(s.body, x), lambda x: self.exec_block(s.orelse, x))
 
     def st_Match(self, s, st):
